@@ -206,21 +206,27 @@ PROPS = {
                         "below the task directory (no `..`), so the name hashed with a file (its path relative to t.Dir) is its root-relative "
                         "path without the `dir/` prefix"],
         "level_text": "Theorems over TaskModel.Finger.invoke (mirror of RunTask / IsTaskUpToDate / Checksum- and TimestampChecker, the latter as "
-                      "patched by TS1-TS3): C04_partial (method checksum, pairwise distinct normalised names, histories of any length made of "
+                      "patched by TS1-TS3 and fix M, state file names as by fix N): C04_partial (method checksum, pairwise distinct display names - "
+                      "names that merely normalise alike have distinct state files, stateKey_inj -, histories of any length made of "
                       "successful runs, runs failing in the command loop, runs cancelled at the prompt, --dry, --status, --force, list/summary "
-                      "queries and arbitrary file edits: skip implies goodRun), C04_partial_timestamp (the same histories for a method-timestamp "
-                      "task without positive generates pattern, distinct marker names, non-decreasing clock), C04_prompt_declined_no_entry / "
+                      "queries and arbitrary file edits: skip implies goodRun), C04_partial_timestamp_general (the same histories for ANY "
+                      "method-timestamp task, distinct task names, non-decreasing clock: skip implies goodRun or a generates file newer than the "
+                      "marker vouched; C04_partial_timestamp: plain goodRun without positive generates pattern), C04_prompt_declined_no_entry / "
                       "_next_runs and C04_timestamp_declined_no_marker / _failed_no_marker / _no_marker_next_runs (a declined prompt or a failed "
                       "run leaves no checksum entry / no marker; the next run is not skipped unless a generates file vouches), "
-                      "C04_timestamp_uptodate_check_pure / _checks_pure / _edit_after_checks_detected (a check ending in 'up to date' leaves the "
-                      "marker alone, so a source written after the last run is rebuilt however many checks lay in between), "
+                      "C04_timestamp_uptodate_check_pure / _checks_pure / _edit_after_checks_detected (a check ending in 'up to date' changes "
+                      "nothing - no marker moved, none created -, so a source written after the last run is rebuilt however many checks lay in "
+                      "between), "
                       "C04_timestamp_skip_generates_exist, and decide-checked counterexamples to C04_full over the patched model (kill for both "
-                      "methods, name collision, method timestamp: never ran / failed run / marker created by an up-to-date check / generates "
+                      "methods, equal labels, method timestamp: never ran / failed run / generates "
                       "rewritten by others - one root: a generates file as new as the sources vouches on its own). Tie: Gen.DryWiring / "
-                      "Gen.FingerOrder tables (incl. the definitions of the timestamp verdict variables) proved equal to the skeleton the "
+                      "Gen.FingerOrder tables (incl. the definitions of the timestamp verdict variables, the touchMarker closure and "
+                      "stateFilename) proved equal to the skeleton the "
                       "model was written against; random histories through the real CLI binary compared step by step (exit class, commands run, "
                       "tree incl. .task) with the model; the property monitor skip⇒goodRun evaluated on the real observations.",
-        "level_note": "Trusted: Lean kernel; harness canonicalisation (mtimes rebased to a logical clock); hash uninterpreted; glob expansion is an oracle.",
+        "level_note": "Trusted: Lean kernel; harness canonicalisation (mtimes rebased to a logical clock; state file names mapped back by recomputing "
+                      "xxh3 of the generated names); hashes uninterpreted (the 64-bit name hash of stateFilename idealised as injective); glob "
+                      "expansion is an oracle.",
     },
     "C05": {
         "lean": "Props.C05",
@@ -477,19 +483,38 @@ def _norm(s):
     return "".join(ch if ("A" <= ch <= "z" or "0" <= ch <= "9") else "-" for ch in s)
 
 
-def _same_key(m, f):
-    """the violating task and the task of the step that wrote the stored fingerprint are different
-    tasks whose store keys coincide (checksum: label or name; timestamp: name)"""
+def _writer_pair(m, f):
+    """the violating task and the task of the step that wrote the stored fingerprint, if they are different tasks"""
     try:
         ts = m["case"]["tasks"]
         a, b = ts[int(f["task"])], ts[int(f["wtask"])]
     except Exception:
-        return False
+        return None
     if f["task"] == f["wtask"]:
+        return None
+    return a, b
+
+
+def _same_key(m, f):
+    """(the rule before fix N) different tasks whose names / display names differ but NORMALISE to the same file name
+    (checksum: label or name; timestamp: name)"""
+    ab = _writer_pair(m, f)
+    if not ab:
         return False
+    a, b = ab
     if f.get("method") == "timestamp":
-        return _norm(a["name"]) == _norm(b["name"])
-    return _norm(a.get("label") or a["name"]) == _norm(b.get("label") or b["name"])
+        return a["name"] != b["name"] and _norm(a["name"]) == _norm(b["name"])
+    da, db = a.get("label") or a["name"], b.get("label") or b["name"]
+    return da != db and _norm(da) == _norm(db)
+
+
+def _same_display(m, f):
+    """method checksum: different tasks with the SAME display name (equal labels, or a label equal to the other's name)"""
+    ab = _writer_pair(m, f)
+    if not ab or f.get("method") != "checksum":
+        return False
+    a, b = ab
+    return (a.get("label") or a["name"]) == (b.get("label") or b["name"])
 
 
 def _gen_vouches(f):
@@ -535,8 +560,10 @@ FINDING_PREDICATES.update({
     # own (vouch=gen) — or the marker that such a skipped check then created does (wskip=1)
     "C04-timestamp-failed-run-generates-newer": _c04(lambda m, f: f.get("method") == "timestamp" and f.get("laexit") == "failed" and
                                                      _gen_vouches(f)),
-    # the stored fingerprint was written by a different task with the same normalised name
+    # the stored fingerprint was written by a different task whose name normalises to the same file name (FIXED by fix N) …
     "C04-normalised-name-collision": _c04(_same_key),
+    # … or, still open, by a different checksum task with the same display name (label)
+    "C04-equal-label-collision": _c04(_same_display),
     # method timestamp, last run fine, but a generates pattern matches nothing (FIXED by TS1)
     "C04-timestamp-missing-generates": _c04(lambda m, f: f.get("method") == "timestamp" and f.get("gens") == "0" and f.get("laexit") == "ok"),
     # method timestamp, the commands never ran: the generates' mtimes alone decided (no marker), or the marker a check created
@@ -546,7 +573,7 @@ FINDING_PREDICATES.update({
     # marker, which a check that ended in "up to date" had MOVED there (FIXED by TS2; kept so that a regression is named) …
     "C04-timestamp-marker-moved-by-every-check": _c04(lambda m, f: f.get("method") == "timestamp" and f.get("gens") == "1" and
                                                       f.get("laexit") == "ok" and f.get("srcnewer") == "1" and _marker_vouches(f)),
-    # … or had CREATED there, there being none (still open)
+    # … or had CREATED there, there being none (FIXED by fix M)
     "C04-timestamp-marker-created-by-uptodate-check": _c04(lambda m, f: f.get("method") == "timestamp" and f.get("laexit") == "ok" and
                                                            f.get("srcnewer") == "1" and f.get("vouch") == "marker" and f.get("wskip") == "1"),
     # method timestamp, last attempt fine, a source is newer than it, and a generates file is newer still
